@@ -1006,7 +1006,30 @@ void Engine<Policy>::op(const std::vector<std::string>& tok) {
                         base += detail::compiler<Policy>::is_base(&a, &b) ? '1' : '0';
                     }
                 }
-                emit("cmp " + std::to_string(key) + " n=" + std::to_string(m.specs.size()) + " ms=" + ms + " base=" + base);
+                // best() on every prefix and every suffix of the method's definitions: positions of what it returns
+                std::string bests;
+                auto run_best = [&](std::size_t from, std::size_t to) {
+                    std::vector<const detail::generic_compiler::definition*> cands;
+                    for (std::size_t i = from; i < to; ++i) {
+                        cands.push_back(&m.specs[i]);
+                    }
+                    auto r = detail::compiler<Policy>::best(cands);
+                    std::string out;
+                    for (auto d : r) {
+                        if (!out.empty()) {
+                            out += '.';
+                        }
+                        out += std::to_string(d - &m.specs[0]);
+                    }
+                    bests += (bests.empty() ? "" : "|") + out;
+                };
+                for (std::size_t k = 1; k <= m.specs.size(); ++k) {
+                    run_best(0, k);
+                }
+                for (std::size_t k = 1; k < m.specs.size(); ++k) {
+                    run_best(k, m.specs.size());
+                }
+                emit("cmp " + std::to_string(key) + " n=" + std::to_string(m.specs.size()) + " ms=" + ms + " base=" + base + " best=" + bests);
             }
         }
     } else if (cmd == "call" || cmd == "vcall") {
